@@ -101,6 +101,19 @@ func c08(r *Report) propMeta {
 
 	r.Rule("C08.R5", "sibling agreement: signing fee")
 	r.ArgHas("route-fee-tss", uK+"GetRouteFee", "BandtssKeeper.GetSigningFee", 0, 1, "param:ctx")
+	// genesis import: an imported tunnel flagged active is put in the active-id set unconditionally (the flag and the index
+	// the end-blocker iterates must agree; seed C08-6 re-validated the deposit and left flag and index apart)
+	ig := "x/tunnel/keeper.InitGenesis"
+	r.Gate("genesis-active-index-iff-flag", ig, CallEff("Keeper.SetActiveTunnelID"), []Cond{{Op: "BOOL", A: []string{"field:Tunnel.IsActive"}, Want: true, Desc: "t.IsActive"}}, GateOpts{})
+	r.EffectSet("genesis-does-not-revalidate", ig, []string{"Keeper.ActivateTunnel", "Keeper.DeactivateTunnel"}, nil)
+	r.ArgHas("genesis-index-of-the-imported-tunnel", ig, "Keeper.SetActiveTunnelID", 1, 1, "field:Tunnel.ID", "field:GenesisState.Tunnels")
+	// the quoted route fee and the charged fee select the SAME group: the current one, nothing when there is none
+	// (createSigningRequest charges only under currentGroupID != 0; seed C08-5 quoted the incoming group's fee)
+	gsf := "x/bandtss/keeper.Keeper.GetSigningFee"
+	r.ArgHas("quote-threshold-of-current-group", gsf, "TSSKeeper.GetGroup", 1, 1, "^field:CurrentGroup.GroupID", "call:Keeper.GetCurrentGroup")
+	r.Gate("quote-nothing-without-current-group", gsf, CallEff("Coins.MulInt"), []Cond{{Op: "EQL", A: []string{"^field:CurrentGroup.GroupID", "call:Keeper.GetCurrentGroup"}, B: []string{"const:0"}, Want: false, Desc: "current group id != 0"}}, GateOpts{})
+	r.EffectSet("quote-ignores-incoming-group", gsf, []string{"Keeper.GetIncomingGroupID", "Keeper.GetGroupTransition"}, nil)
+	r.Gate("charge-only-with-current-group", "x/bandtss/keeper.Keeper.createSigningRequest", CallEff("BankKeeper.SendCoinsFromAccountToModule"), []Cond{{Op: "EQL", A: []string{"field:CurrentGroup.GroupID", "call:Keeper.GetCurrentGroup"}, B: []string{"const:0"}, Want: false, Desc: "current group id != 0"}}, GateOpts{})
 	r.Exists("signing-fee", "x/bandtss/keeper.Keeper.GetSigningFee", RetValEff(0, "field:Params.FeePerSigner", "call:Coins.MulInt", "field:Group.Threshold", "call:Keeper.GetCurrentGroup"), 1)
 	r.ArgHas("escrow-fee", "x/bandtss/keeper.Keeper.createSigningRequest", "BankKeeper.SendCoinsFromAccountToModule", 3, 1, "field:Params.FeePerSigner", "call:Coins.MulInt", "field:Group.Threshold")
 
